@@ -578,7 +578,7 @@ func c16Specs(env *c16Env) []rpcSpec {
 				return err
 			}},
 		{name: "Pull", newMsg: func() proto.Message { return &pubsubpb.PullRequest{ReturnImmediately: true} },
-			ignore: []string{"subscriptions.expires_at"},
+			ignore: []string{"subscriptions.expires_at", "deliveries.attempt_at", "deliveries.attempts", "deliveries.last_attempted_at"},
 			fields: []field{
 				{"subscription", nameAlts(c16S1, "subscriptions", func(m proto.Message, v string) { m.(*pubsubpb.PullRequest).Subscription = v })},
 				{"max_messages", int32Alts(10, func(m proto.Message, v int32) { m.(*pubsubpb.PullRequest).MaxMessages = v })},
@@ -852,7 +852,14 @@ func runC16(t *testing.T, tier string) int {
 					continue
 				}
 			}
-			ctx, cancel := context.WithTimeout(context.Background(), 300*time.Millisecond)
+			// only calls that block by design get the short deadline; for everything
+			// else a client-side timeout under load could race with a server-side
+			// commit and look like "error but state changed"
+			dl := 15 * time.Second
+			if sp.name == "Pull" || sp.name == "StreamingPull" {
+				dl = 300 * time.Millisecond
+			}
+			ctx, cancel := context.WithTimeout(context.Background(), dl)
 			start := time.Now()
 			err := sp.invoke(ctx, srv, m)
 			cancel()
